@@ -62,6 +62,10 @@ CHECKS = {
          "explicit-state exhaustive search over issue/mint/edit/transfer/burn/transfer-class sequences by creator, owner and stranger on the real NFT keeper for all four restriction-flag combinations, reference ownership/metadata model compared through the queries after every message",
          "Every sequence up to the depth bound (thorough tier reaches the fixpoint of the closed system): forbidden operations never succeed, one owner per token agreeing across all queries, restricted mint only by the creator, metadata of update-restricted classes never changes (also via transfer-with-changes and after a class handover), ids stable, supply = tokens = sum of balances.",
          "DESIGN.md §3 C14"),
+ "C16": ("model_checking",
+         "exhaustive enumeration of boundary parameter sets (single-field deviations, pairs among fee/tax fields, full product for small modules) crossed with senders, genesis import and the module's operation menu, each executed on the real application on its own state branch",
+         "For coinswap, farm, htlc, service, token: every parameter set of the lattice is sent by the authority and by a stranger and pushed through genesis validation/import - stored iff authority and the module's Validate() accepts; under every accepted set every operation that succeeds under the defaults is run on a fork followed by two blocks - a panic in a handler or blocker that does not occur under the defaults is a violation.",
+         "DESIGN.md §3 C16"),
 }
 NOT_YET = "check not built yet in this phase of the work (see DESIGN.md §6 change log); not claimed"
 
